@@ -22,7 +22,7 @@ type LossFrame struct {
 	AV1W    []int     `json:"av1_w,omitempty"`    // av1 + RefEnc: per packet (cyclically) 0 = W=0, every element length-prefixed; else W = element count
 	AV1N    bool      `json:"av1_n,omitempty"`    // av1 + RefEnc: N bit on the first packet
 	FUSize  int       `json:"fu_size,omitempty"`  // fragment size used by the independent encoder
-	EmptyFU int       `json:"empty_fu,omitempty"` // independent encoder: 1 = empty START fragment, 2 = an empty middle fragment, 3 = both (RFC 6184 5.8 allows empty FUs); +4 = a unit that fits the MTU goes out as ONE FU-A carrying S and E together (a sender must not do that, but the packet begins with its own start marker and a fresh H264Packet decodes it)
+	EmptyFU int       `json:"empty_fu,omitempty"` // independent encoder: 1 = empty START fragment, 2 = an empty middle fragment, 3 = both (RFC 6184 5.8 allows empty FUs); +8 = the start fragment of every train has the F bit set in its FU indicator; +4 = a unit that fits the MTU goes out as ONE FU-A carrying S and E together (a sender must not do that, but the packet begins with its own start marker and a fresh H264Packet decodes it)
 }
 
 // Garbage is an arbitrary input delivered before packet Pos of frame A (Pos >= the
@@ -120,7 +120,11 @@ func (f *LossFrame) packets(codec string) [][]byte {
 			if f.EmptyFU&1 != 0 {
 				sizes = append([]int{0}, sizes...)
 			}
-			out = append(out, h264rtp.FUA(n, sizes)...)
+			train := h264rtp.FUA(n, sizes)
+			if f.EmptyFU&8 != 0 {
+				train[0][0] |= 0x80 // forbidden_zero_bit set on the start fragment's FU indicator (flagged as damaged in transit)
+			}
+			out = append(out, train...)
 		}
 
 		return out
@@ -346,6 +350,9 @@ func genLossFrame(t *rapid.T, codec string, mustFragment bool, label string) Los
 	if f.RefEnc && rapid.IntRange(0, 4).Draw(t, label+"sefu") == 0 {
 		f.EmptyFU |= 4
 	}
+	if f.RefEnc && rapid.IntRange(0, 5).Draw(t, label+"fbit") == 0 {
+		f.EmptyFU |= 8
+	}
 	k := rapid.IntRange(1, 3).Draw(t, label+"nnals")
 	for i := 0; i < k; i++ {
 		n := NALSpec{Type: rapid.SampledFrom([]uint8{1, 1, 5, 5, 6, 2, 3}).Draw(t, label+"type"), NRI: uint8(rapid.IntRange(0, 3).Draw(t, label+"nri")),
@@ -418,7 +425,7 @@ func genLossCase(t *rapid.T) *LossCase {
 	return c
 }
 
-const ruleC15 = "rapid draws (codec in {H264Packet Annex-B, H264Packet AVC, AV1Depacketizer}, frame A with at least one fragmented unit packetised by the library's payloader or an independent encoder (AV1: W=0 and counted forms, up to three elements per packet, fragments cut anywhere; H264: also empty fragments and, for units that fit, single FU-As carrying S and E together), optionally a second lossy frame delivered under a drawn mask, frame B of any shape (sometimes starting with an SPS/PPS pair), 0-5 garbage inputs - random strings, stray continuation fragments or damaged copies of A's own packets - interleaved at drawn positions before, inside and after A and always delivered; one case in 60 additionally delivers an end-less fragment train holding 2^k - {0,1,2,3,100} bytes (k 20-24; AV1 18-21) right before B); for A of up to 10 packets ALL 2^n delivery subsets are enumerated in order (1024 drawn subsets beyond that), each followed by the complete frame B; oracle: for every packet of B the output bytes, error-ness and AV1 Z/Y/N of the used receiver equal those of a fresh receiver fed B only. Non-trivial = case in which some subset leaves a fragment train open (start delivered, end lost) and B contains a fragmented unit; evaluations count cases plus enumerated subsets; distinct = FNV-64 of the JSON case"
+const ruleC15 = "rapid draws (codec in {H264Packet Annex-B, H264Packet AVC, AV1Depacketizer}, frame A with at least one fragmented unit packetised by the library's payloader or an independent encoder (AV1: W=0 and counted forms, up to three elements per packet, fragments cut anywhere; H264: also empty fragments, start fragments flagged with the F bit and, for units that fit, single FU-As carrying S and E together), optionally a second lossy frame delivered under a drawn mask, frame B of any shape (sometimes starting with an SPS/PPS pair), 0-5 garbage inputs - random strings, stray continuation fragments or damaged copies of A's own packets - interleaved at drawn positions before, inside and after A and always delivered; one case in 60 additionally delivers an end-less fragment train holding 2^k - {0,1,2,3,100} bytes (k 20-24; AV1 18-21) right before B); for A of up to 10 packets ALL 2^n delivery subsets are enumerated in order (1024 drawn subsets beyond that), each followed by the complete frame B; oracle: for every packet of B the output bytes, error-ness and AV1 Z/Y/N of the used receiver equal those of a fresh receiver fed B only. Non-trivial = case in which some subset leaves a fragment train open (start delivered, end lost) and B contains a fragmented unit; evaluations count cases plus enumerated subsets; distinct = FNV-64 of the JSON case"
 
 func TestC15(t *testing.T) {
 	r := begin(t, "C15", "fault_enumeration", ruleC15)
